@@ -124,6 +124,36 @@ def rewalk_disagrees(mk_iter, idx, conv):
     return None
 
 
+def union_export_disagrees(x, t, depth=0):
+    """object export of every union inside the value agrees with its selector() and value() (walks fields / elements)"""
+    k = t[0]
+    try:
+        if k == "union":
+            ob = x.to_obj()
+            val = x.value()
+            if ob.get("selector") != int(x.selector()):
+                return "to_obj() of a union reports another selector than selector()"
+            if (ob.get("value") is None) != (val is None):
+                return "to_obj() of a union reports value None although value() is %r" % (val,)
+            if val is not None and ob["value"] != val.to_obj():
+                return "to_obj() of a union disagrees with value().to_obj()"
+            o = union_opt(t, int(x.selector()))
+            return union_export_disagrees(val, o, depth + 1) if o is not None and depth < 3 else None
+        if k == "cont" and depth < 3:
+            for i, ft in enumerate(t[1]):
+                r = union_export_disagrees(getattr(x, "f%d" % i), ft, depth + 1)
+                if r:
+                    return r
+        if k in ("vec", "list") and depth < 3 and not is_basic(t[1]):
+            for i in range(min(len(x), 4)):
+                r = union_export_disagrees(x[i], t[1], depth + 1)
+                if r:
+                    return r
+    except Exception as e:  # noqa
+        return "export of a union inside the value raised %r" % (e,)
+    return None
+
+
 def build(inp):
     t, v, w = inp["t"], inp["v"], inp["w"]
     x, y = to_py(t, v), to_py(t, w)
@@ -145,7 +175,7 @@ def build(inp):
             why = "the elements kept from list(iter(v)) are not the elements indexing gives (a yielded element changed afterwards)"
         elif unpacked != idx:
             why = "unpacking (*v) disagrees with indexing"
-        if why is None and k == "list" or why is None and k == "vec":
+        if why is None:
             # two read-only iterations alive at the same time (over x and over another value of the same type), in lock step,
             # and an export of the other value in the middle of a walk
             try:
@@ -162,6 +192,8 @@ def build(inp):
                     why = "a read-only walk during which another value of the same type is exported / encoded hands out other elements than indexing"
             except Exception as ex:  # noqa
                 why = "lock-step read-only iteration raised %r" % (ex,)
+        if why is not None:
+            pass
         elif slices_disagree(x, idx, lambda z: elem_obs(e, z), ll):
             why = slices_disagree(x, idx, lambda z: elem_obs(e, z), ll)
         elif rewalk_disagrees(lambda: x.readonly_iter(), idx, lambda z: elem_obs(e, z)):
@@ -191,6 +223,8 @@ def build(inp):
         if list(ob.keys()) != ["f%d" % i for i in range(ll)]:
             why = "to_obj() keys are not the field names in order"
         reads = [ll, idx, it]
+    if why is None:
+        why = union_export_disagrees(x, t)
     eq = bool(x == y)
     roots_eq = x.hash_tree_root() == y.hash_tree_root()
     if eq != roots_eq:
